@@ -57,6 +57,8 @@ def yield_inline_callbacks(it, v, fr):
         if it.ctx.branch(v.fields["fails"].z, "deferred-fails"):
             raise PyRaise(VObj("OldPeerCannotDilateError", {"args": VTuple([])}))
         return NONE
+    if not isinstance(v, (VObj, VOpaque)):
+        return v            # a non-Deferred is sent straight back into the generator
     raise OutOfSubset("yield of something that is not a modelled Deferred")
 
 
